@@ -73,7 +73,8 @@ def run(ctx):
     work = os.path.join(ctx.scratch, "cli")
     os.makedirs(work, exist_ok=True)
     # sources
-    flatprog = progs.complete(progs.gen(ctx, 1, length=12, nl=2, bits=16)[0], org=0x7c00, bits=16)
+    # (an ASCII-only program: the command decodes its input as Shift_JIS; non-ASCII text is exercised separately below)
+    flatprog = next(p_ for p_ in (progs.complete(c_, org=0x7c00, bits=16) for c_ in progs.gen(ctx, 12, length=12, nl=2, bits=16)) if render.program(p_).isascii())
     coffprog = [{"k": "cfg", "mn": "FORMAT", "s": "WCOFF"}, {"k": "bits", "v": 32}, {"k": "global", "names": ["_start"]}, {"k": "cfg", "mn": "SECTION", "s": ".text"},
                 {"k": "label", "nm": "_start"}, {"k": "ins", "mn": "MOV", "ops": [{"t": "r", "w": 32, "n": 0}, {"t": "r", "w": 32, "n": 3}]}, {"k": "ins", "mn": "RET", "ops": []}]
     texts = {"flat": render.program(flatprog).encode(), "coff": render.program(coffprog).encode(), "empty": b"",
